@@ -105,14 +105,17 @@ RunJoint(D, u, joint, st, eps, dv) ==
        IN
        IF allApp /\ Commute(D, u, cs, st, eps, dv)
        THEN RunJoint(D, u, Tail(joint), SeqRun(D, u, cs, st, eps, dv).st, eps, dv)
+       \* (from such a step on the converter's running state is no longer the plan's: whether the later
+       \*  actions of the plan are applicable in it is not determined by the plan being valid, so the rest of
+       \*  the joint plan is held to the structural clauses of ValidConversion only)
        ELSE IF allApp /\ "ConvertNonCommuting" \in dv /\ NoEffectClash(D, u, cs, st, eps) /\ SlotFold(D, u, cs, st, eps, dv).ok
-       THEN RunJoint(D, u, Tail(joint), SlotFold(D, u, cs, st, eps, dv).st, eps, dv)
+       THEN [ok |-> TRUE, st |-> SlotFold(D, u, cs, st, eps, dv).st]
        \* Known deviation "ConvertForallUnseen": the converter extracts the effects of a member from its
        \* grounded unconditional and `when' effects only; what an action does under a forall is never
        \* grounded there, so a clash that goes through a universally quantified effect is not seen.
        ELSE IF allApp /\ "ConvertForallUnseen" \in dv /\ SomeForall(D, cs) /\ NoEffectClashP(D, u, cs, st, eps, TRUE)
                /\ SlotFold(D, u, cs, st, eps, dv).ok
-       THEN RunJoint(D, u, Tail(joint), SlotFold(D, u, cs, st, eps, dv).st, eps, dv)
+       THEN [ok |-> TRUE, st |-> SlotFold(D, u, cs, st, eps, dv).st]
        ELSE [ok |-> FALSE, st |-> st]
 
 \* the state before plan[i] in the sequential run
